@@ -31,6 +31,8 @@ def run(ctx):
         # every crash point once per sync mode, trees rotated by seed; ptrace: 6 instants
         keep, seen = [], set()
         ctx.rng.shuffle(cases)
+        # trees whose descendants leave the program's session / process group come first
+        cases.sort(key=lambda c: 0 if "s" in c["tree"] else 1)
         for c in cases:
             k = (c["kind"], c["point"], c["sa"]) if c["kind"] == "container" else (c["kind"], c["point"], c["after"])
             if k not in seen:
